@@ -293,3 +293,74 @@ def write_evidence(prop, ev):
     os.makedirs(d, exist_ok=True)
     with open(os.path.join(d, f"{prop}.json"), "w") as f:
         json.dump(ev, f, indent=1, default=repr)
+
+
+class LogBase:
+    """Base of every logger stand-in of the harnesses: whatever logging.Logger method the code under test calls
+    exists (isEnabledFor, critical, log, getEffectiveLevel, ...), so that a change in HOW the library logs is
+    never mistaken for a change in behaviour.  Subclasses define debug / info / warning / error / exception."""
+
+    def debug(self, *a, **k):
+        pass
+
+    info = warning = error = debug
+
+    def isEnabledFor(self, level):
+        return True
+
+    def getEffectiveLevel(self):
+        return 10
+
+    def critical(self, *a, **k):
+        return self.error(*a, **k)
+
+    fatal = critical
+
+    def warn(self, *a, **k):
+        return self.warning(*a, **k)
+
+    def log(self, level, *a, **k):
+        try:
+            lv = int(level)
+        except Exception:  # noqa: BLE001
+            lv = 20
+        if k.get("exc_info"):
+            return self.exception(*a)
+        return (self.error if lv >= 40 else self.warning if lv >= 30 else self.info if lv >= 20 else self.debug)(*a, **k)
+
+    def getChild(self, *a, **k):
+        return self
+
+    def __getattr__(self, name):
+        if name.startswith("__"):
+            raise AttributeError(name)
+        return lambda *a, **k: None
+
+
+def log_origin(depth=2):
+    """Where a logged exception was caught, read off the call stack (never off the message text): "task" if the
+    handler belongs to one of the connection's long-running tasks (socket_read_task / heartbeat_timer_task, possibly
+    through a helper they call), "inner" if it is the swallowing handler of _process_message or anything else."""
+    import sys
+
+    f = sys._getframe(depth)
+    while f is not None:
+        n = f.f_code.co_name
+        if n == "_process_message":
+            return "inner"
+        if n in ("socket_read_task", "heartbeat_timer_task"):
+            return "task"
+        f = f.f_back
+    return "inner"
+
+
+def clock_patch(module, now):
+    """what to bind to `module.time` so that the code under test reads `now()` seconds, whichever way the module
+    imported its clock: `import time` (then `time.time()`), or `from time import time` (then `time()`)."""
+    import types
+
+    cur = getattr(module, "time", None)
+    if cur is not None and callable(cur) and not hasattr(cur, "time"):
+        return now                                   # `from time import time`
+    return types.SimpleNamespace(time=now, monotonic=now, perf_counter=now, time_ns=lambda: int(now() * 1e9),
+                                 sleep=lambda *_a: None)
